@@ -220,11 +220,12 @@ def judge(scn, want_text=True):
         ctx = out.ctx
         o = offsets[j] if j < len(offsets) else len(stream)
         rest = stream[o:]
-        okctx = isinstance(ctx, (bytes, bytearray)) and len(ctx) >= 4 and rest[:len(ctx)] == bytes(ctx)
+        okctx = (isinstance(ctx, (bytes, bytearray)) and len(ctx) >= min(4, len(rest)) and len(ctx) > 0
+                 and rest[:len(ctx)] == bytes(ctx))
         why = None
         if not okctx:
             why = "is not a prefix (of at least the 4-byte length field) of the stored bytes of the failing record"
-        else:
+        elif len(rest) >= 4:
             ln = int.from_bytes(rest[:4], "big")
             if ln <= 6000:
                 avail = rest[:4 + ln]
